@@ -164,14 +164,14 @@ func (fc *FuncCtx) Defs(obj types.Object) []int {
 			if objOf(info, n.X) == obj {
 				def = true
 			}
-		case *ast.RangeStmt:
-			if v.Kind == VRange {
-				if n.Key != nil && objOf(info, n.Key) == obj {
-					def = true
-				}
-				if n.Value != nil && objOf(info, n.Value) == obj {
-					def = true
-				}
+		}
+		if v.Kind == VRange {
+			n := v.Stmt.(*ast.RangeStmt)
+			if n.Key != nil && objOf(info, n.Key) == obj {
+				def = true
+			}
+			if n.Value != nil && objOf(info, n.Value) == obj {
+				def = true
 			}
 		}
 		if def {
